@@ -184,12 +184,17 @@ def run(ctx):
         c06_t3 = None
     if c06_t3 is not None:
         t3 = c06_t3.run_part(ctx)
+    from . import c06_sizes
+
+    sz = c06_sizes.run_part(ctx)
+    ctx.log(f"sizes (free-running, real children): {sz['cases']} cases x {c06_sizes.REPS} repetitions, sizes {sz['sizes']}")
     ctx.sample({"tier": "T1", "chunks": "two", "consumer": "iterraw", "threads": ["consumer(main)", "writer", "populate_fd_queue"], "preemption_bound": bound})
     ctx.coverage.update(
         states=len(total["sigs"]) + (t2["states"] if t2 else 0) + (t3["states"] if t3 else 0),
         transitions=total["steps"] + (t2["transitions"] if t2 else 0) + (t3["transitions"] if t3 else 0),
         traces_validated_against_impl=total["executions"] + (t2["executions"] if t2 else 0) + (t3["executions"] if t3 else 0),
         t3=t3["summary"] if t3 else "not run",
+        sizes_free_running={"cases": sz["cases"], "executions": sz["executions"], "sizes": sz["sizes"], "note": "exhaustive over sizes/kinds/shapes, NOT over schedules"},
         preemption_bound=bound,
         exhaustive=total["capped"] is None and (t2["exhaustive"] if t2 else True) and (t3["exhaustive"] if t3 else True),
         caps_hit=total["capped"],
@@ -207,6 +212,10 @@ def replay(rec):
         from . import c06_t2
 
         return c06_t2.replay(rec)
+    if c.get("tier") == "sizes":
+        from . import c06_sizes
+
+        return c06_sizes.replay(rec)
     if c.get("tier") == "T3":
         from . import c06_t3
 
